@@ -249,10 +249,14 @@ impl MainState {
                 #[cfg(feature = "dns_lookup")]
                 if let Some(hostname) = hostname_opt {
                     conn_state.user_state.set_hostname(hostname);
-                    if let Some(nick) = &conn_state.user_state.nick {
-                        let mut state = self.state.write().await;
-                        if let Some(user) = state.users.get_mut(nick) {
-                            user.update_hostname(&conn_state.user_state);
+                    // only a registered connection owns a user - nick of unregistered
+                    // connection can be nick of other user.
+                    if conn_state.user_state.authenticated {
+                        if let Some(nick) = &conn_state.user_state.nick {
+                            let mut state = self.state.write().await;
+                            if let Some(user) = state.users.get_mut(nick) {
+                                user.update_hostname(&conn_state.user_state);
+                            }
                         }
                     }
                 }
